@@ -680,6 +680,14 @@ func TestZZDriver(t *testing.T) {
 			r.base = (seed0+1)*0x9e3779b97f4a7c15 ^ uint64(s)*0xbf58476d1ce4e5b9
 			c.Run(r)
 			st.Runs++
+			if !c.HasErr {
+				for _, e := range r.gotTr {
+					if strings.HasPrefix(e, "E:") {
+						r.issue("error-capable-call-without-error-result", e, "function without error result calls the error-capable %s", e)
+						break
+					}
+				}
+			}
 			if r.Mode == modeEdge {
 				st.EdgeRuns++
 			}
